@@ -8,6 +8,7 @@ import (
 	"go/constant"
 	"go/token"
 	"go/types"
+	"golang.org/x/tools/go/types/typeutil"
 	"reflect"
 	"regexp"
 	"sort"
@@ -440,6 +441,7 @@ func c20Table(p *Prog, r *Report) {
 	}
 	// environment clauses
 	var clauses []*envClause
+	var pendingLookups []func()
 	var envFuncs []*FuncInfo
 	for _, fi := range p.Funcs {
 		if fi.Pkg != pkg || fi.Decl.Body == nil {
@@ -552,7 +554,10 @@ func c20Table(p *Prog, r *Report) {
 					}
 				}
 				if !okc {
-					r.Undecided("C20.b", fi.Key+"#lookup", p.pos(c), "the name of the environment variable is not a constant at this lookup (a table of options driven by one loop): not a form the per-setting rule follows")
+					key, at := fi.Key+"#lookup", p.pos(c)
+					pendingLookups = append(pendingLookups, func() {
+						r.Undecided("C20.b", key, at, "the name of the environment variable is not a constant at this lookup (a table of options driven by one loop): not a form the per-setting rule follows")
+					})
 					continue
 				}
 				cl.ifs = ifs
@@ -625,7 +630,6 @@ func c20Table(p *Prog, r *Report) {
 			return true
 		})
 	}
-	r.Floor("C20.b", "environment-clauses", len(clauses), 7)
 	byField := map[*types.Var][]*envClause{}
 	for _, cl := range clauses {
 		for fv := range cl.fields {
@@ -633,6 +637,7 @@ func c20Table(p *Prog, r *Report) {
 		}
 	}
 	table := []*cfgLeaf{}
+	nSemantic := 0
 	semantic := false // some setting was decided by running its ParseEnv method: helper functions with lookups are not "dead clauses"
 	for _, l := range leaves {
 		cons := "config.Config#" + l.Path
@@ -674,6 +679,7 @@ func c20Table(p *Prog, r *Report) {
 				// environment that holds (or not) the variable the documentation names
 				if c20SemanticSetting(p, r, cons, l) {
 					semantic = true
+					nSemantic++
 					table = append(table, l)
 					continue
 				}
@@ -696,6 +702,21 @@ func c20Table(p *Prog, r *Report) {
 		c20Clause(p, r, cons, l, cl)
 		table = append(table, l)
 	}
+	// lookups whose name is not a constant (one loop over a table of options) are judged through the settings: when
+	// every documented setting was decided - by a clause or by running its ParseEnv method, which runs that loop -
+	// nothing is left to say about the lookup itself
+	allDecided := true
+	for _, l := range leaves {
+		if l.DocEnv != "" && l.Env == "" {
+			allDecided = false
+		}
+	}
+	if !(allDecided && nSemantic > 0) {
+		for _, f := range pendingLookups {
+			f()
+		}
+	}
+	r.Floor("C20.b", "environment-clauses", len(clauses)+nSemantic, 7)
 	r.Tables["settings"] = table
 	// every function holding clauses is reached from Config.ParseEnv with its error propagated
 	root := p.Func(kCfgParseEnv)
@@ -1453,7 +1474,7 @@ func c20SemanticSetting(p *Prog, r *Report, cons string, l *cfgLeaf) bool {
 			if tv, ok := ci.Types[c.Fun]; ok && tv.IsType() && len(c.Args) == 1 {
 				return e.eval(c.Args[0]), true
 			}
-			if h := p.staticCallee(e.Pkg, c); h == nil {
+			if h := p.staticCallee(e.Pkg, c); h == nil && isResolvedFunc(ci, c) {
 				if t, ok := ci.Types[c]; ok {
 					if _, isTuple := t.Type.(*types.Tuple); !isTuple && !t.IsVoid() {
 						// an external single-valued function of the text (strings.Split, strings.TrimSpace)
@@ -1478,7 +1499,7 @@ func c20SemanticSetting(p *Prog, r *Report, cons string, l *cfgLeaf) bool {
 				}
 				return []*Val{strVal(""), boolVal(false)}, true
 			}
-			if h := p.staticCallee(e.Pkg, c); h == nil {
+			if h := p.staticCallee(e.Pkg, c); h == nil && isResolvedFunc(ci, c) {
 				if t, ok := ci.Types[c].Type.(*types.Tuple); ok && t.Len() == 2 && isErrorType(t.At(1).Type()) {
 					out.parsers++
 					derived := false
@@ -1552,4 +1573,10 @@ func c20SemanticSetting(p *Prog, r *Report, cons string, l *cfgLeaf) bool {
 		r.Check(failed, "C20.b", cons+"/parse-error", p.pos(fi.Decl), "a malformed value of "+l.DocEnv+" makes "+mk+" return an error", "a malformed value of "+l.DocEnv+" is not reported: "+mk+" returns nil although the parser failed")
 	}
 	return true
+}
+
+// isResolvedFunc: the call names a declared function or method (not a closure held in a variable, field or element).
+func isResolvedFunc(info *types.Info, c *ast.CallExpr) bool {
+	fn, _ := typeutil.Callee(info, c).(*types.Func)
+	return fn != nil
 }
